@@ -109,7 +109,15 @@ def warmups():
         # the caller post-processes the array it was given in place (dB conversion, normalisation ...)
         "scribble": st.sampled_from([False, False, True]),
     })
-    return st.one_of(st.just([]), st.lists(op, min_size=1, max_size=4))
+    # short ordered sequences over two filters and a few widths around the judged one (tables shared between filters or
+    # widths, caches with an eviction rule and lazily grown buffers only go wrong for one order of three requests)
+    seq = st.fixed_dictionaries({
+        "m": st.sampled_from(["freq", "freq", "half", "imp", "trunc"]),
+        "filt": st.sampled_from(["same", "other", "other2"]),
+        "w": st.sampled_from(["same", "same", "W-1", "W+1", 12, 64, "2W-1"]),
+        "scribble": st.just(False),
+    })
+    return st.one_of(st.just([]), st.lists(op, min_size=1, max_size=4), st.lists(seq, min_size=2, max_size=3))
 
 
 def _other_instance(bank, W):
@@ -155,7 +163,12 @@ def apply_warmup(bank, num_filts, i, W, warmup):
         w = int(w)
         if w < 2 or w > 8192:
             continue
-        j = i if op["filt"] == "same" else int(op["filt"]) % num_filts
+        if op["filt"] == "same":
+            j = i
+        elif op["filt"] in ("other", "other2"):
+            j = (i + (1 if op["filt"] == "other" else num_filts // 2 + 1)) % num_filts
+        else:
+            j = int(op["filt"]) % num_filts
         m = op["m"]
         got = None
         if m == "freq":
@@ -172,6 +185,55 @@ def apply_warmup(bank, num_filts, i, W, warmup):
                 if isinstance(arr, np.ndarray) and arr.size and arr.flags.writeable:
                     arr *= 3.0
                     arr += 1.0
+
+
+# ------------------------------------------------------------------ exhaustive orders of three requests
+
+TRIPLE_BANKS = {
+    "tri": {"alias": "tri", "num_filts": 7, "low_hz": 0.0, "high_hz": 500.0, "sampling_rate": 1000, "scale": {"alias": "mel"}, "analytic": False},
+    "fbank": {"alias": "fbank", "num_filts": 7, "low_hz": 0.0, "high_hz": 500.0, "sampling_rate": 1000, "analytic": True},
+    "gabor": {"alias": "gabor", "num_filts": 7, "low_hz": 20.0, "high_hz": 500.0, "sampling_rate": 1000, "scale": {"alias": "mel"}, "erb": False, "scale_l2_norm": False},
+    "gammatone": {"alias": "gammatone", "num_filts": 7, "low_hz": 20.0, "high_hz": 500.0, "sampling_rate": 1000, "scale": {"alias": "mel"},
+                  "erb": False, "scale_l2_norm": False, "order": 4, "max_centered": False},
+}
+
+
+def _request(bank, m, j, w):
+    if m == "freq":
+        return bank.get_frequency_response(j, w)
+    if m == "half":
+        return bank.get_frequency_response(j, w, True)
+    if m == "trunc":
+        return bank.get_truncated_response(j, w)
+    return bank.get_impulse_response(j, w)
+
+
+def enum_triples(methods, widths=(24, 40), filts=(0, 6)):
+    """Every ordered triple of requests over two filters (with no vertex in common), two widths and the given methods."""
+    import itertools
+
+    reqs = [(m, j, w) for m in methods for j in filts for w in widths]
+    for kind in TRIPLE_BANKS:
+        for triple in itertools.product(reqs, repeat=3):
+            if len(set(triple)) < 2:
+                continue
+            yield {"kind": kind, "reqs": [list(r) for r in triple]}
+
+
+def check_triple(case):
+    """The answer to a request does not depend on the two requests made before it on the same bank object."""
+    spec = TRIPLE_BANKS[case["kind"]]
+    bank = call("bank constructor", build_bank, spec)
+    out = None
+    for m, j, w in case["reqs"]:
+        out = call("%s(%d, %d)" % (m, j, w), _request, bank, m, j, w)
+    m, j, w = case["reqs"][-1]
+    want = _request(build_bank(spec), m, j, w)
+    parts = lambda v: [np.asarray(p) for p in (v if isinstance(v, tuple) else (v,))]  # noqa
+    same = all(a.shape == b.shape and np.array_equal(a, b) for a, b in zip(parts(out), parts(want))) and len(parts(out)) == len(parts(want))
+    require(same, "{} bank: the answer to {}({}, {}) after {} differs from a fresh bank's answer", case["kind"], m, j, w,
+            ", then ".join("%s(%d, %d)" % tuple(r) for r in case["reqs"][:2]))
+    return {"nontrivial": len(set(tuple(r) for r in case["reqs"])) == 3, "labels": ["kind=" + case["kind"], "last=" + m]}
 
 
 def check_layout(case):
@@ -285,6 +347,14 @@ def check_gain(case):
     apply_warmup(bank, spec["num_filts"], i, W, case.get("warmup"))
     H = call("get_frequency_response", bank.get_frequency_response, i, W)
     require(isinstance(H, np.ndarray) and H.shape == (W,), "frequency response has shape {!r}", getattr(H, "shape", None))
+    if case["filt"] % 2:
+        # the same response asked for as a half spectrum (the other route to these values) is judged instead
+        Hh = call("get_frequency_response(half=True)", bank.get_frequency_response, i, W, True)
+        require(isinstance(Hh, np.ndarray) and Hh.shape == (W // 2 + 1,), "half response has shape {!r} for width {}", getattr(Hh, "shape", None), W)
+        full = np.array(H, copy=True)
+        H = np.zeros(W, dtype=complex)
+        H[: W // 2 + 1] = Hh
+        H[W // 2 + 1:] = full[W // 2 + 1:]
     A = np.abs(H)
     require(bool(np.all(np.isfinite(A))), "non-finite frequency response")
     k0 = int(np.argmax(A))
